@@ -148,6 +148,74 @@ theorem no_half_alive (uo : Bool) (cap : Nat) (es : List Ev) (x : St)
       · exact hc (h3 hl')
     · exact hs' hs
 
+/-- `run` over a concatenation -/
+theorem run_append (cbw g : Bool) (cap : Nat) : ∀ (es fs : List Ev) (x : St),
+    run cbw g cap x (es ++ fs) = (run cbw g cap x es).bind fun y => run cbw g cap y fs
+  | [], _, _ => rfl
+  | e :: es, fs, x => by
+    simp only [List.cons_append, run]
+    cases step cbw g cap x e with
+    | none => rfl
+    | some y => exact run_append cbw g cap es fs y
+
+/-- The remaining disjunct of `no_half_alive` is not a resting place: a scheduler that is waiting
+    for transmissions in flight is released by their completion (`inflightDone` is enabled in
+    every such state), and from there on every quiescent state is the fully returned one. So "a
+    transmit error stops every activity together" holds as soon as the operating system has
+    completed (or failed) the transmissions that were in flight — the model has no clock, the
+    bound on that is the harness's (`grpq`: latency of the write in flight + 1.1 s). -/
+theorem stopping_resolves (uo : Bool) (cap : Nat) (es : List Ev) (x : St)
+    (hr : run true true cap (init uo) es = some x) (hs : x.s = .stopping) :
+    ∃ y, step true true cap x .inflightDone = some y ∧
+      ∀ (fs : List Ev) (z : St), run true true cap y fs = some z → quiescent true true cap z = true →
+        z.ret = true ∧ z.l = .done ∧ z.i = true ∧ z.s = .done ∧ z.m = .done ∧ z.w = true := by
+  refine ⟨{ x with s := .done, eg := true }, by simp [step, hs], ?_⟩
+  intro fs z hz hq
+  have hreach : run true true cap (init uo) (es ++ .inflightDone :: fs) = some z := by
+    rw [run_append, hr]
+    simp only [Option.bind_some, run, step, hs, if_true]
+    exact hz
+  have hinv := inv_run true cap _ _ z (inv_init uo) hreach
+  have htrig : triggered z = true := by
+    -- the errgroup's context stays cancelled: `eg` is never reset
+    have hmono : ∀ (fs : List Ev) (a b : St), a.eg = true → run true true cap a fs = some b → b.eg = true := by
+      intro fs
+      induction fs with
+      | nil => intro a b ha hb; simp only [run, Option.some.injEq] at hb; subst hb; exact ha
+      | cons e fs ih =>
+        intro a b ha hb
+        simp only [run] at hb
+        cases hst : step true true cap a e with
+        | none => rw [hst] at hb; cases hb
+        | some a' =>
+          rw [hst] at hb
+          refine ih a' b ?_ hb
+          cases e <;> simp only [step] at hst <;> split at hst <;> (try (cases hst; done)) <;>
+            simp only [Option.some.injEq] at hst <;> subst hst <;> simp_all
+    have := hmono fs _ z (by rfl) hz
+    simp [triggered, this]
+  have hns : z.s ≠ .stopping := by
+    -- a scheduler that has returned stays returned
+    have hdone : ∀ (fs : List Ev) (a b : St), a.s = .done → run true true cap a fs = some b → b.s = .done := by
+      intro fs
+      induction fs with
+      | nil => intro a b ha hb; simp only [run, Option.some.injEq] at hb; subst hb; exact ha
+      | cons e fs ih =>
+        intro a b ha hb
+        simp only [run] at hb
+        cases hst : step true true cap a e with
+        | none => rw [hst] at hb; cases hb
+        | some a' =>
+          rw [hst] at hb
+          refine ih a' b ?_ hb
+          cases e <;> simp only [step] at hst <;> split at hst <;> (try (cases hst; done)) <;>
+            simp only [Option.some.injEq] at hst <;> subst hst <;> simp_all
+    have := hdone fs _ z (by rfl) hz
+    simp [this]
+  rcases no_half_alive uo cap _ z hreach hq htrig with h | h
+  · exact absurd h hns
+  · exact ⟨h.1, h.2.1, h.2.2.1, h.2.2.2.1, h.2.2.2.2.1, h.2.2.2.2.2.1⟩
+
 /-- Every internal step strictly decreases the measure — the wind-down terminates however the
     goroutines interleave, for either kind of send, any defer order and any capacity; completing a
     send buffers a request but removes a heavier pending send. -/
